@@ -28,6 +28,13 @@ def gen(rng, tier):
         for _ in range(reps):
             for s in "ui":
                 sg = s == "i"
+                # FromStr (decimal): values around the type's limits, u64-sized values on narrow types, signs
+                lim = (M >> 1) if sg else M
+                for z in (lim - 1, lim, lim + 1, 0, rng.randrange(lim), rng.randrange(1 << 64), (1 << 64) - 1, 1 << 64, rng.randrange(1 << 70)):
+                    sign = rng.choice(["", "+", "-"]) if sg else rng.choice(["", "+"])
+                    yield f"from_str {s}{cfg} {(sign + str(z)).encode().hex()}", "from_str"
+                for junk in ("", "+", "-", "12a", " 1", "1_0"):
+                    yield f"from_str {s}{cfg} {junk.encode().hex() or '-'}", "from_str-junk"
                 for mode in ("dbg", "rel"):
                     for op in ("add", "sub", "bitand", "bitor", "bitxor"):
                         for f in FORMS:
